@@ -229,11 +229,13 @@ class MultiTypeMap(dict):
                 ]
                 if not rval:  # pragma: no cover
                     rval = list(candidates)
-                if len(rval) == 1:
+                if len(rval) == 1 and not self.dependent[rval[0].handler]:
                     # A winner must dominate every other candidate. When
                     # subclassing is not transitive (virtual subclasses) the
                     # only undominated candidate may be unrelated to some:
                     # they share its rank, which is therefore ambiguous.
+                    # (Not for a value-dependent candidate: whether it takes
+                    # part at all is only known at call time.)
                     rval += [
                         c
                         for c in candidates
